@@ -33,7 +33,8 @@ SIG_TORN = "C13:xyz:cut-inside-last-token"
 SIG_RAISE = "C13:xyz:partial-line-raises"
 # open candidate findings on the UNCHANGED /repo (reported, not yet recorded in known_findings.json): a failure with one of
 # these signatures is written into the evidence (extra.pending_findings) instead of being printed as a VIOLATION
-PENDING_FINDINGS = ["C13:lammps:trailing-blank-late-newline"]
+PENDING_FINDINGS = []     # C13:lammps:trailing-blank-late-newline was fixed by /repo dfb19e7 (known_findings.json: fixed)
+SIG_TRAILING = "C13:lammps:trailing-blank-late-newline"
 
 
 def _imports():
@@ -130,7 +131,10 @@ def gen_lmp(rng, natoms, nframes, style):
             toks = [gen_num(rng) for _ in range(ncols)]
             box.append(toks + ["0"] * (3 - ncols))
             text += sep(rng, style).join(toks) + "\n"
-        tb = " " if style == 3 else ""       # LAMMPS ends these lines with "id \n"
+        if style == 3 and fr == 0:           # LAMMPS ends these lines with "id \n"; also tabs / several blanks
+            tb = rng.choice([" ", " ", "  ", "\t", " \t "])
+        elif style != 3:
+            tb = ""
         text += f"ITEM: ATOMS id type x y z vx vy vz id{u()}{tb}\n"
         ids = list(range(1, natoms + 1))
         rng.shuffle(ids)
@@ -377,10 +381,9 @@ def drive_model(ctx, head, seqs, chunk=300):
 
 
 # ----------------------------------------------------------------------------- text readers
-def check_text(ctx, ep, rf, kind, text, frames, bounds, seqs, label, trailing=False):
-    """trailing=True: LAMMPS atom lines end in a blank (outside `LmpF.WF`): model = code is still compared, the spec
-    functions are not (their theorems assume WF), and the one known way this class fails — a poll that sees a frame up
-    to its last id but not the " \n" behind it, after which the next poll raises ValueError — is a PENDING finding"""
+def check_text(ctx, ep, rf, kind, text, frames, bounds, seqs, label, trailing=0):
+    """trailing=s>0: LAMMPS atom lines end in s-1 blanks/tabs before the newline (what dump custom writes): a frame may be
+    returned while up to s bytes (that white space and the newline, never a byte of a value) are missing"""
     data = text.encode()
     T = len(data)
     fn = ep.xyz_reader if kind == "xyz" else ep.lammpstrj_reader
@@ -399,8 +402,10 @@ def check_text(ctx, ep, rf, kind, text, frames, bounds, seqs, label, trailing=Fa
             m_rep = [canon_model(r) for r in drive_model(ctx, f"xyz repaired {hexs(data)}", seqs)]
             spec = drive_model(ctx, f"xspec {lst(lens)}", seqs)
         else:
-            m_asis = [canon_model(r) for r in drive_model(ctx, f"lmp {hexs(data)}", seqs)]
-            m_rep = None
+            m_rep = [canon_model(r) for r in drive_model(ctx, f"lmpv repaired {hexs(data)}", seqs)]
+            m_asis = m_rep
+            if any(cs != mm for cs, mm in zip(code_s, m_rep)):     # not the code as it is now: the recorded old rule?
+                m_asis = [canon_model(r) for r in drive_model(ctx, f"lmpv asIs {hexs(data)}", seqs)]
             spec = drive_model(ctx, f"lspec {lst(lens)}", seqs)
     agree_asis = agree_rep = True
     first_dis = None
@@ -411,15 +416,11 @@ def check_text(ctx, ep, rf, kind, text, frames, bounds, seqs, label, trailing=Fa
         ctx.count(1, branch=f"{kind}:{shape}")
         if any(c not in bounds for c in cuts[:-3]):
             ctx.distinct((kind, label, tuple(cuts)))
-        bad = pred(code[k], cuts, frames, bounds, 2) if trailing else pred(code[k], cuts, frames, bounds)
+        bad = pred(code[k], cuts, frames, bounds, trailing) if trailing else pred(code[k], cuts, frames, bounds)
         if (bad is not None and trailing and bad[0] == "C13:lammps:partial-frame-raises"
-                and any(c + 2 in bounds[1:] for c in cuts)):
-            psig = PENDING_FINDINGS[0]
-            ctx.hit(f"pending:{psig}")
-            pend = ctx.extra.setdefault("pending_findings", {})
-            if psig not in pend:
-                pend[psig] = {"what": bad[1], "text": text, "cuts": cuts, "stage": bad[2]}
-            bad = None
+                and any(c + r in bounds[1:] for c in cuts for r in range(2, trailing + 1))):
+            bad = (SIG_TRAILING, bad[1] + " (a poll saw a frame up to its last id, the blank(s) and newline behind it "
+                   "arrived later)", bad[2])
         if bad is not None:
             nfail += 1
             sig, what, stage = bad
@@ -436,11 +437,13 @@ def check_text(ctx, ep, rf, kind, text, frames, bounds, seqs, label, trailing=Fa
                     first_dis = (cuts, code_s[k], m_asis[k])
             if m_rep is not None and strip_pos(code_s[k]) != strip_pos(m_rep[k]):
                 agree_rep = False
-            if trailing:
-                continue
+            if kind == "lmp" and code_s[k] != m_rep[k]:
+                agree_rep = False
+            if trailing and any(b - trailing <= c <= b - 2 for c in cuts for b in bounds[1:]):
+                continue     # a cut strictly inside the white space behind a last trailing id: outside `tbFree`
             # the spec function (theorem right-hand side) against the implementation's output
             spec_st = [[int(x) for x in s.split(",") if x.strip()] for s in spec[k].split(" | ")]
-            target = m_rep if kind == "xyz" else m_asis
+            target = m_rep
             tgt = strip_pos(target[k])
             exp_fr = ([fl_rows(f) for f in frames] if kind == "xyz"
                       else [(fl_rows(c), fl_rows(b)) for c, b in frames])
@@ -454,7 +457,7 @@ def check_text(ctx, ep, rf, kind, text, frames, bounds, seqs, label, trailing=Fa
     if have_model:
         from props import c13_ext
         c13_ext.compare_object(ctx, kind, data, text, seqs, code, prevs, lens, frames, label,
-                               (show_code_stage, canon_model, fl_rows), with_spec=not trailing)
+                               (show_code_stage, canon_model, fl_rows), slack=trailing, bounds=bounds)
         if kind == "xyz":
             if agree_asis:
                 ctx.hit("xyz:code-agrees-with-model=asIs")
@@ -464,9 +467,14 @@ def check_text(ctx, ep, rf, kind, text, frames, bounds, seqs, label, trailing=Fa
                 ctx.disagree({"fn": "xyz_reader vs model (neither asIs nor repaired everywhere)", "label": label,
                               "text": text, "cuts": first_dis[0] if first_dis else None},
                              first_dis[1] if first_dis else None, first_dis[2] if first_dis else None)
-        elif not agree_asis:
-            ctx.disagree({"fn": "lammpstrj_reader vs model", "label": label, "text": text, "cuts": first_dis[0]},
-                         first_dis[1], first_dis[2])
+        elif agree_rep:
+            ctx.hit("lmp:code-agrees-with-model=repaired")
+        elif agree_asis:
+            ctx.hit("lmp:code-agrees-with-model=asIs")
+        else:
+            ctx.disagree({"fn": "lammpstrj_reader vs model (neither repaired nor asIs everywhere)", "label": label,
+                          "text": text, "cuts": first_dis[0] if first_dis else None},
+                         first_dis[1] if first_dis else None, first_dis[2] if first_dis else None)
     return nfail
 
 
@@ -983,7 +991,8 @@ def replay_corpus(ctx, ep, rf):
         conv = conv_xyz if kind == "xyz" else conv_lmp
         frames = r["frames"] if kind == "xyz" else [tuple(x) for x in r["frames"]]
         stages = rf.polls(ep, fn, r["text"].encode(), r["cuts"], conv)
-        bad = (pred_xyz if kind == "xyz" else pred_lmp)(stages, r["cuts"], frames, r["bounds"])
+        bad = (pred_xyz(stages, r["cuts"], frames, r["bounds"]) if kind == "xyz"
+               else pred_lmp(stages, r["cuts"], frames, r["bounds"], r.get("slack", 1)))
         ctx.count(1, branch="corpus")
         ctx.distinct(("corpus", f.name))
         if bad is not None:
@@ -1082,7 +1091,7 @@ def run(ctx):
                 pool.append(("lmp", text, frames, bounds))
             seqs = cut_seqs(blen(text), pairs, rng, mp) + extra_seqs(blen(text), bounds, rng)
             check_text(ctx, ep, rf, "lmp", text, frames, bounds, seqs, f"lmp{j}:{na}x{nf}:s{style}",
-                       trailing=(style == 3))
+                       trailing=(len(text) - len(text.rstrip(" \t\n")) if style == 3 else 0))
             if j < 1:
                 ctx.sample({"kind": "lammpstrj", "text": text, "n_cut_sequences": len(seqs)})
 
@@ -1131,11 +1140,15 @@ def run(ctx):
         "(U+0085, U+00A0, U+2000.., U+3000: str.split() would split there, the byte model does not), and a locale "
         "whose encoding is not UTF-8",
         "constant atom count over a trajectory (the readers learn N only from the first frame of each poll)",
-        "the LAMMPS theorems (LmpF.WF) assume no blank after the trailing id of an atom line; trajectories WITH that "
-        "blank (what LAMMPS dump custom writes: 'id \\n') are generated as a class of their own (every cut; model = code "
-        "compared; frames may be returned while only the ' \\n' is missing): a poll that sees a frame exactly up to its "
-        "last id makes the next poll raise ValueError (lmp_trailing_blank_counterexample) — recorded as PENDING finding "
-        "C13:lammps:trailing-blank-late-newline in extra.pending_findings, not printed as a violation",
+        "LAMMPS atom lines may end in any blanks/tabs before the newline (what dump custom writes; class of its own in "
+        "the generator, every cut; a frame may be returned while at most that white space and the newline are missing, "
+        "never a byte of a value). Lean: the one-poll statements hold for every cut (lmp_trailing_frame_poll, "
+        "lmp_late_line_end_skipped); the poll-by-poll theorems hold for every schedule when the frames end right behind "
+        "their last trailing id (slack 1) and otherwise under the cut guard tbFree (no cut strictly inside the white "
+        "space behind a frame's LAST trailing id: *_trailing_partial) — the stage spec lmpStages is compared with the "
+        "implementation on exactly those schedules; on the others the predicates and model = code judge. The old "
+        "late-newline rule (finding C13:lammps:trailing-blank-late-newline, fixed by /repo dfb19e7) is the model's asIs "
+        "variant, kept as a record (lmp_trailing_blank_counterexample; corpus witness)",
         "number tokens restricted to [+-]digits[.digits][e[+-]digits] (no inf/nan/underscores); float()/numpy "
         "string-to-double conversion assumed correctly rounded and identical",
         "TRR: the Lean model is the whole get_gromacs_frames generator at byte level (gGen: size guards, read_trr_header, "
@@ -1180,7 +1193,8 @@ def replay(ctx, obj):
             conv = conv_xyz if kind == "xyz" else conv_lmp
             stages = rf.polls(ep, fn, r["text"].encode(), r["cuts"], conv)
             frames = r["frames"] if kind == "xyz" else [tuple(f) for f in r["frames"]]
-            bad = (pred_xyz if kind == "xyz" else pred_lmp)(stages, r["cuts"], frames, r["bounds"])
+            bad = (pred_xyz(stages, r["cuts"], frames, r["bounds"]) if kind == "xyz"
+                   else pred_lmp(stages, r["cuts"], frames, r["bounds"], r.get("slack", 1)))
             for k, s in enumerate(stages):
                 print(f"poll {k} visible={r['cuts'][k]}:", show_code_stage(s, kind))
             print("predicate:", bad)
